@@ -406,27 +406,6 @@ fn c07_read_cut_in_metadata_key() {
 	kani::cover!(true, "reached");
 }
 
-// @verif property=C07,C06 tier=thorough mem=32 timeout=5400
-// @encodes peppi::io::slippi::read, parse_metadata, ubjson::read_map (first read only) on a file cut right after the opening brace of its metadata element
-// @symbolic 88 random seed of the Game Start block, 6 gap bytes
-// @bound one port-free 0.1 file (build()) with `U\x08metadata{` after the Game End, cut after the `{`: the metadata reader hits the end of the stream at its first read; skip-frames path
-// @assume file skeleton and cut position concrete; metadata content is outside (ubjson::read_map beyond its first read is not encodable, DESIGN.md C16)
-// @stub alloc::fmt::format = returns an empty String
-// @stub std::hash::RandomState::new = fixed keys
-// @cbmc --max-field-sensitivity-array-size 1024
-#[kani::proof]
-#[kani::unwind(12)]
-#[kani::stub(alloc::fmt::format, format_stub)]
-#[kani::stub(std::hash::RandomState::new, random_state_stub)]
-#[kani::stub(xxhash_rust::xxh3::Xxh3::update, update_check)]
-fn c07_read_cut_in_metadata() {
-	let mut f: [u8; 400] = kani::any();
-	let total = build::<6>(&mut f, false, false);
-	let total = with_metadata_key(&mut f, total);
-	read_cut(&f, total, true);
-	kani::cover!(true, "reached");
-}
-
 // @verif property=C07,C06 tier=thorough mem=24 timeout=3600
 // @encodes peppi::io::slippi::read on a finished file cut inside the Game End event, inside the skipped / unknown-event region, inside the Game Start block and inside the payload table
 // @symbolic 88 random seed of the Game Start block, 6 gap bytes
@@ -694,4 +673,94 @@ pub fn c10_read_skip_seek_any_gap_twin() {
 #[kani::stub(std::hash::RandomState::new, random_state_stub)]
 fn c10_read_skip_seek_any_gap() {
 	gap_case(false);
+}
+
+/// A port-free 3.0.0 file with ONE frame: payload table (Game Start 320, Game End 2, Frame Start
+/// 8, Frame End 4), Game Start, Frame Start, Frame End, Game End, closing brace.  Symbolic: the
+/// frame's random seed.  Returns (total length, offset of the Frame End code, offset of the
+/// Game End code).
+fn build_one_frame(f: &mut [u8; 400]) -> (usize, usize, usize) {
+	let keep: [u8; 400] = *f;
+	*f = [0u8; 400];
+	let mut i = 0;
+	while i < 11 {
+		f[i] = SIG[i];
+		i += 1;
+	}
+	let t = 15;
+	f[t] = 0x35;
+	f[t + 1] = 13;
+	f[t + 2] = 0x36;
+	f[t + 3] = 1;
+	f[t + 4] = 0x40; // 320
+	f[t + 5] = 0x39;
+	f[t + 6] = 0;
+	f[t + 7] = 2;
+	f[t + 8] = 0x3A;
+	f[t + 9] = 0;
+	f[t + 10] = 8;
+	f[t + 11] = 0x3C;
+	f[t + 12] = 0;
+	f[t + 13] = 4;
+	let st = t + 14;
+	f[st] = 0x36;
+	f[st + 1] = 3; // version 3.0.0
+	f[st + 2] = 0;
+	f[st + 3] = 0;
+	let mut p = 0;
+	while p < 6 {
+		f[st + 1 + 100 + 36 * p + 1] = 3;
+		p += 1;
+	}
+	let fs = st + 321;
+	let id = (-123i32).to_be_bytes();
+	f[fs] = 0x3A;
+	f[fs + 1] = id[0];
+	f[fs + 2] = id[1];
+	f[fs + 3] = id[2];
+	f[fs + 4] = id[3];
+	let mut k = 0;
+	while k < 4 {
+		f[fs + 5 + k] = keep[fs + 5 + k];
+		k += 1;
+	}
+	let fe = fs + 9;
+	f[fe] = 0x3C;
+	f[fe + 1] = id[0];
+	f[fe + 2] = id[1];
+	f[fe + 3] = id[2];
+	f[fe + 4] = id[3];
+	let ge = fe + 5;
+	f[ge] = 0x39;
+	f[ge + 1] = 2;
+	f[ge + 2] = 255;
+	f[ge + 3] = 0x7d;
+	let raw_len = (14 + 321 + 9 + 5 + 3) as u32;
+	let rl = raw_len.to_be_bytes();
+	f[11] = rl[0];
+	f[12] = rl[1];
+	f[13] = rl[2];
+	f[14] = rl[3];
+	(ge + 4, fe, ge)
+}
+
+// @verif property=C07,C06:thorough tier=quick mem=24 timeout=3000
+// @encodes peppi::io::slippi::read (full path: event loop, one closed frame) on a finished one-frame file cut exactly at an event boundary: the stream ends where the Game End's event code is expected
+// @symbolic 32 the frame's random seed
+// @bound one port-free 3.0.0 file with one frame (Frame Start, Frame End, 2-byte Game End); one concrete cut position; full parse (skip_frames off); with the complete file as a control and a second cut (before the Frame End) in the same harness it was still in symbolic execution after 42 min
+// @assume file skeleton and cut position concrete: a stream that ends where an event code is expected, in a file whose header declares a non-zero raw length, is a truncated file, not an in-progress one
+// @stub alloc::fmt::format = returns an empty String
+// @stub std::hash::RandomState::new = fixed keys
+// @cbmc --max-field-sensitivity-array-size 1024
+#[kani::proof]
+#[kani::unwind(12)]
+#[kani::stub(alloc::fmt::format, format_stub)]
+#[kani::stub(std::hash::RandomState::new, random_state_stub)]
+#[kani::stub(xxhash_rust::xxh3::Xxh3::update, update_check)]
+fn c07_read_cut_at_event_boundary() {
+	let mut f: [u8; 400] = kani::any();
+	let (total, fe, ge) = build_one_frame(&mut f);
+	assert!(fe < ge && ge + 4 == total);
+	read_cut(&f, ge, false);
+	kani::cover!(true, "reached");
 }
